@@ -100,20 +100,54 @@ def rand_value(rng, ty):
     return rng.getrandbits(bits)
 
 
+def chain_tokens(chain):
+    """VIEW tokens for a chain of operations ('S', start, count, step-or-None) / ('R', dims)."""
+    t = [len(chain)]
+    for op in chain:
+        if op[0] == 'S':
+            _, start, count, step = op
+            t += ['S', len(start)] + list(start) + list(count) + (['N'] if step is None else ['E'] + list(step))
+        else:
+            t += ['R', len(op[1])] + list(op[1])
+    return [2, len(t)] + t
+
+
+def apply_chain(dims, elems, chain, gather):
+    """The view's own elements, row-major (what Get returns), computed here independently of the code."""
+    dims = list(dims)
+    for op in chain:
+        if op[0] == 'S':
+            _, start, count, step = op
+            elems = gather(elems, dims, start, count, [1] * len(dims) if step is None else step)
+            dims = list(count)
+        else:
+            dims = list(op[1])
+    return dims, elems
+
+
+def small_gather(vals, dims, start, count, step):
+    return [vals[lin(dims, [s + k * st for s, k, st in zip(start, idx, step)])] for idx in indices(count)]
+
+
 class View:
-    """A source array: contiguous base + optional Slice(start, count, step)."""
-    def __init__(self, base, vals, sl):
-        self.base, self.vals, self.sl = base, vals, sl
-        if sl is None:
+    """A source array: contiguous base + a view of it: None, one Slice (start, count, step), or a chain
+    of nested Slice (nil / explicit step) and Reshape operations."""
+    def __init__(self, base, vals, sl, chain=None):
+        self.base, self.vals, self.sl, self.chain = base, vals, sl, chain
+        if chain is not None:
+            self.dims, self.elems = apply_chain(base, list(vals), chain, small_gather)
+        elif sl is None:
             self.dims, self.elems = list(base), list(vals)
         else:
             start, count, step = sl
             self.dims = list(count)
-            self.elems = [vals[lin(base, [s + k * st for s, k, st in zip(start, idx, step)])] for idx in indices(count)]
+            self.elems = small_gather(vals, base, start, count, step)
 
     def tokens(self):
         t = [len(self.base)] + self.base + [len(self.vals)] + ['%x' % v for v in self.vals]
-        if self.sl is None:
+        if self.chain is not None:
+            t += chain_tokens(self.chain)
+        elif self.sl is None:
             t += [0]
         else:
             t += [1] + list(self.sl[0]) + list(self.sl[1]) + list(self.sl[2])
@@ -121,12 +155,46 @@ class View:
         return [str(x) for x in t]
 
 
+def nested_chain(rng, shape, sub):
+    """base dims + chain for: a strided view of the root, then a sub-view of THAT with a nil step
+    (sub = 'nil'), an explicit all-ones step ('ones') or a further step ('step')."""
+    r = len(shape)
+    s2 = [rng.randint(1, 2) for _ in shape] if sub == 'step' else [1] * r
+    a2 = [rng.randint(0, 1) for _ in shape]
+    pcount = [a + (c - 1) * st + 1 + rng.randint(0, 1) for a, c, st in zip(a2, shape, s2)]
+    s1 = [rng.randint(1, 3) for _ in shape]
+    if all(x == 1 for x in s1):
+        s1[rng.randrange(r)] = rng.randint(2, 3)                 # the parent really is strided
+    a1 = [rng.randint(0, 1) for _ in shape]
+    base = [a + (c - 1) * st + 1 + rng.randint(0, 1) for a, c, st in zip(a1, pcount, s1)]
+    chain = [('S', a1, pcount, s1), ('S', a2, list(shape), None if sub == 'nil' else s2)]
+    return base, chain
+
+
+def reshape_chain(rng, shape):
+    """a strided 1-d view reshaped to [shape] (a copy), or a reshaped contiguous root that is then cut."""
+    n = prod(shape)
+    if rng.random() < 0.5:
+        st, a = rng.randint(1, 3), rng.randint(0, 2)
+        base = [a + (n - 1) * st + 1 + rng.randint(0, 2)]
+        return base, [('S', [a], [n], [st]), ('R', list(shape))]
+    big = [c + rng.randint(0, 2) for c in shape]
+    start = [rng.randint(0, b - c) for b, c in zip(big, shape)]
+    return [prod(big)], [('R', big), ('S', start, list(shape), rng.choice([None, [1] * len(shape)]))]
+
+
 def gen_view(rng, ty, shape, kinds):
-    """A view whose logical shape is [shape]; kind drawn from contiguous / gapped / stepped."""
-    kind = rng.choice(['contiguous', 'gapped', 'stepped', 'stepped'])
+    """A view whose logical shape is [shape]; kind drawn from contiguous / gapped / stepped /
+    nested (sub-view of a strided view: nil, all-ones or further step) / reshaped."""
+    kind = rng.choice(['contiguous', 'gapped', 'stepped', 'stepped', 'nested-nil', 'nested-ones', 'nested-ones', 'nested-step', 'reshaped'])
+    if prod(shape) == 0:
+        kind = 'contiguous'
     kinds[kind] = kinds.get(kind, 0) + 1
     if kind == 'contiguous':
         return View(list(shape), [rand_value(rng, ty) for _ in range(prod(shape))], None)
+    if kind.startswith('nested') or kind == 'reshaped':
+        base, chain = nested_chain(rng, shape, kind[7:]) if kind.startswith('nested') else reshape_chain(rng, shape)
+        return View(base, [rand_value(rng, ty) for _ in range(prod(base))], None, chain)
     start, step, base = [], [], []
     for c in shape:
         s = 1 if kind == 'gapped' else rng.randint(1, 3)
@@ -144,7 +212,11 @@ def gen_shape(rng, kinds=None):
         sh = [1] * r                                           # single element
         if kinds is not None:
             kinds['single-element'] = kinds.get('single-element', 0) + 1
-    elif k < 0.2 and r >= 2:
+    elif k < 0.3 and r >= 2:
+        sh = [1] * (r - 1) + [rng.randint(2, 6)]               # one series [1,..,1,n] of a block (as ow-sim writes them)
+        if kinds is not None:
+            kinds['series'] = kinds.get('series', 0) + 1
+    elif k < 0.4 and r >= 2:
         sh = [rng.randint(2, 5)] + [1] * (r - 1)               # column
         if kinds is not None:
             kinds['column'] = kinds.get('column', 0) + 1
@@ -260,10 +332,12 @@ def big_dump(path, dims, a):
 
 
 class BigView:
-    def __init__(self, tc, base, seed, sl):
-        self.base, self.seed, self.sl = base, seed, sl
+    def __init__(self, tc, base, seed, sl, chain=None):
+        self.base, self.seed, self.sl, self.chain = base, seed, sl, chain
         flat = array.array(tc, range(seed, seed + prod(base)))
-        if sl is None:
+        if chain is not None:
+            self.dims, self.elems = apply_chain(base, flat, chain, big_gather)
+        elif sl is None:
             self.dims, self.elems = list(base), flat
         else:
             self.dims = list(sl[1])
@@ -271,7 +345,10 @@ class BigView:
 
     def tokens(self):
         t = [len(self.base)] + self.base + ['%x' % self.seed]
-        t += [0] if self.sl is None else [1] + list(self.sl[0]) + list(self.sl[1]) + list(self.sl[2])
+        if self.chain is not None:
+            t += chain_tokens(self.chain)
+        else:
+            t += [0] if self.sl is None else [1] + list(self.sl[0]) + list(self.sl[1]) + list(self.sl[2])
         return [str(x) for x in t]
 
 
@@ -280,6 +357,20 @@ def gen_big_view(rng, tc, shape, kind):
     base, start, step = list(shape), [0] * r, [1] * r
     if kind == 'contiguous':
         return BigView(tc, base, rng.randint(0, 900), None)
+    if kind.startswith('nested'):
+        # a strided parent (step 2 on the last or the first axis), then a sub-view of it: nil / all-ones / further step
+        ax = r - 1 if rng.random() < 0.6 else 0
+        sub = kind[7:]
+        s2, a2 = [1] * r, [0] * r
+        if sub == 'step':
+            s2[ax] = 2
+        a2[ax] = rng.randint(0, 1)
+        pcount = [a + (c - 1) * st + 1 for a, c, st in zip(a2, shape, s2)]
+        s1, a1 = [1] * r, [0] * r
+        s1[ax] = 2
+        base = [a + (c - 1) * st + 1 for a, c, st in zip(a1, pcount, s1)]
+        chain = [('S', a1, pcount, s1), ('S', a2, list(shape), None if sub == 'nil' else s2)]
+        return BigView(tc, base, rng.randint(0, 900), None, chain)
     ax = r - 1 if kind.endswith('last') else 0
     if kind.startswith('gapped'):
         gap = rng.randint(1, 3)
@@ -311,9 +402,11 @@ def gen_big_case(rng, ty, n0, stats, stratum=None):
     else:
         f, g = rng.choice([3, 5, 7, 9, 11]), rng.choice([2, 3])
         shape = [f, g, -(-n // (f * g))]
-    kind = rng.choice(['contiguous', 'gapped-last', 'gapped-first', 'stepped-last', 'stepped-first', 'gapped-last', 'stepped-first'])
+    kind = rng.choice(['contiguous', 'gapped-last', 'gapped-first', 'stepped-last', 'stepped-first', 'gapped-last', 'stepped-first',
+                       'nested-ones', 'nested-nil', 'nested-step'])
     if stratum and stratum.endswith('strided'):
-        kind = rng.choice(['gapped-last', 'stepped-last', 'stepped-first'] if r > 1 else ['stepped-last', 'stepped-first'])
+        kind = rng.choice(['gapped-last', 'stepped-last', 'stepped-first', 'nested-ones', 'nested-nil'] if r > 1
+                          else ['stepped-last', 'stepped-first', 'nested-ones'])
     elif stratum:
         kind = rng.choice(['contiguous', 'gapped-first'])
     if stratum and stratum.startswith('below') and r > 1:
@@ -705,6 +798,7 @@ def main():
     n_ops = 0
     n_argmod = 0
     n_calls = 0
+    n_unroll = 0
     for i, (meta, li, lm) in enumerate(zip(metas, impl, model)):
         kind = meta[0]
         agree = li == lm
@@ -758,8 +852,9 @@ def main():
                         {'kind': 'a call modified its arguments (snapshot of every []int / [][]int argument and of the source array before/after the call)',
                          'elem_type': ty, 'modified': [x for x in notes.split(' ; ') if x.startswith('ARGUMENT-MODIFIED')][:6],
                          'case_line': lines[i], 'implementation_line': li})
-        if li.startswith('CRASH') or 'UNROLL-MISMATCH' in notes:
-            c.violation('seq_%d.json' % i, {'kind': 'crash or Unroll mismatch in the harness', 'case_line': lines[i], 'impl': li, 'notes': notes})
+        if li.startswith('CRASH') or 'GET-MISMATCH' in notes:
+            c.violation('seq_%d.json' % i, {'kind': 'crash, or the source view read by Get differs from the generator\'s view (C01)', 'case_line': lines[i],
+                                            'impl': li, 'notes': notes[:2000]})
             continue
         res, _, dump = li.partition(' || ')
         results = res.split(' | ')
@@ -783,8 +878,14 @@ def main():
                 if want != got:
                     bad = {'op_index': 'final', 'expected_contents_only': sorted(want - got)[:5], 'implementation_only': sorted(got - want)[:5]}
         if bad is not None:
-            key = 'native-int-width' if (ty in WIDE and agree) else None
-            c.violation('oracle_seq_%d.json' % i, dict(kind='io-oracle', elem_type=ty, case_line=lines[i], implementation_line=li, **bad), key=key)
+            key = 'native-int-width' if (ty in WIDE and agree and 'UNROLL-MISMATCH' not in notes) else None
+            c.violation('oracle_seq_%d.json' % i, dict(kind='io-oracle', elem_type=ty, case_line=lines[i], implementation_line=li,
+                                                       harness_notes=notes[:1500], **bad), key=key)
+        if 'UNROLL-MISMATCH' in notes:
+            n_unroll += 1
+            c.violation('unroll_%d.json' % i, {'kind': 'Unroll() of a source view differs from its elements read by Get, row-major (what Write / WriteSlice '
+                                                       'hand to the library is not the array) -- property C02, seen from C08', 'elem_type': ty,
+                                               'notes': notes[:2000], 'case_line': lines[i]})
         if i % 41 == 0:
             c.sample({'type': ty, 'ops': descr, 'result_head': li[:160]})
     # ---- large blocks (judged by the Python abstract store only)
@@ -814,7 +915,7 @@ def main():
                      '(exported under build tag verif) against the model and against the extent of the in-memory slice; random multi-axis '
                      'makeHyperslab; operation sequences (Create/Write/WriteSlice/Load with and without selection/Shape/Exists/GetDatasets/'
                      'GetGroups, 4-14 ops) on one fresh fake file per case for all 8 element types with source views contiguous / gapped / '
-                     'stepped / column / single element, each compared op-by-op and on the final file contents with the extracted IoOps model, '
+                     'stepped / column / single series [1,..,1,n] / single element, and NESTED views (sub-view of a strided view with nil, all-ones or further step; reshaped views) whose elements read by Get and whose Unroll() are both compared with the generator view, each compared op-by-op and on the final file contents with the extracted IoOps model, '
                      'and with an independent Python specification (loaded == in-memory slice; WriteSlice frame+effect; create-existing no-op); '
                      'every 5th sequence is a malformed stream (odd names, step 0, wrong ranks, compress) compared model-vs-code only; '
                      'two sequences in five start with 2-3 datasets of one rank and different extents and then RE-USE the same selection / '
@@ -826,7 +927,9 @@ def main():
     c.finish(extra_cov={'exhaustive': True, 'exhaustive_scope': 'sliceSize/makeHyperslab box only; sequences are sampled',
                         'sequence_ops': n_ops, 'op_mix': {k: v for k, v in stats.items() if k != 'views'}, 'source_views': stats['views'],
                         'lock_graph': lock_info, 'concurrency_testing': conc, 'coqchk': chk, 'large_blocks': big_info,
-                        'argument_snapshot_oracle': {'calls_bracketed': n_calls, 'argument_modified_reports': n_argmod}},
+                        'argument_snapshot_oracle': {'calls_bracketed': n_calls, 'argument_modified_reports': n_argmod},
+                        'source_view_checks': {'views_read_by_Get_and_by_Unroll': sum(v for k, v in stats['views'].items() if k not in ('single-element', 'series', 'column')), 'unroll_mismatch_sequences': n_unroll,
+                                               'nested_or_reshaped_views': sum(v for k, v in stats['views'].items() if k.startswith('nested') or k == 'reshaped')}},
              assumptions=['libhdf5 + gonum binding replaced by harness/fakehdf5 (README.md there states the modelled hyperslab / transfer semantics); '
                           'the claim is about the Go I/O layer against that documented semantics',
                           'Unroll() of any source view is its row-major element list (property C02); the harness cross-checks it per case',
